@@ -304,7 +304,7 @@ def run(ctx: Ctx, rs: RuleSet, tier: str):
            'the rewritten function shares globals, defaults and keyword '
            'defaults with the original', ctx.loc(mk, mk.node))
   # as_buildable wrapper calls the rewritten function with its own arguments
-  ab = mk.nested.get('as_buildable')
+  ab = ctx.p.nested_of(mk, 'as_buildable')
   ok = False
   if ab is not None and ab.node.args.vararg and ab.node.args.kwarg:
     va, kw = ab.node.args.vararg.arg, ab.node.args.kwarg.arg
